@@ -2,7 +2,7 @@
 
 1. RECORD: the real load path (xr.Variable -> LazilyIndexedArray -> LazilyIndexedWrapper.__getitem__ -> explicit_indexing_adapter ->
    _raw_indexing_method -> Array.__getitem__) is executed once per load, sequentially, on an instrumented in-memory filesystem, with
-   instrumented locks (subclass of xarray's SerializableLock, installed where the real code creates its lock) and an instrumented
+   the lock object the real code created wrapped by a logging/gating proxy (event label = identity of the underlying mutual-exclusion object) and an instrumented
    Array subclass that logs every attribute read/write.  Result per load: its event program
        acquire(lock) | release(lock) | open(handle) | seek(handle) | read(handle) | close(handle) | get(obj.attr) | set(obj.attr)
    with the IDENTITY of locks, handles and objects as observed.
@@ -129,33 +129,7 @@ def _rec():
     return _CURRENT["rec"]
 
 
-from xarray.backends.locks import SerializableLock  # noqa: E402
-
 from ceos_alos2.array import Array  # noqa: E402
-
-
-class TracedLock(SerializableLock):
-    def _ev(self, what):
-        ev = (what, "lock:" + str(self.token))
-        if _CURRENT["ctl"] is not None:
-            _CURRENT["ctl"].gate(ev)
-        if _rec() is not None:
-            _rec().log(ev)
-
-    def acquire(self, *a, **k):
-        self._ev("acquire")
-        return self.lock.acquire(*a, **k)
-
-    def release(self, *a, **k):
-        r = self.lock.release(*a, **k)
-        self._ev("release")
-        return r
-
-    def __enter__(self):
-        self.acquire()
-
-    def __exit__(self, *a):
-        self.release()
 
 
 class LockProxy:
@@ -226,10 +200,6 @@ class TracedArray(Array):
 
 
 TracedArray.__hash__ = Array.__hash__
-
-
-def make_traced_lock():
-    return TracedLock
 
 
 def make_traced_array():
